@@ -7,31 +7,50 @@ impl VMLocalPinningBitSpec {
     /// Pin an object by setting the pinning bit to 1.
     /// Return true if the object is pinned in this operation.
     pub fn pin_object<VM: VMBinding>(&self, object: ObjectReference) -> bool {
-        let res = self.compare_exchange_metadata::<VM, u8>(
-            object,
-            0,
-            1,
-            None,
-            Ordering::SeqCst,
-            Ordering::SeqCst,
-        );
-
-        res.is_ok()
+        // The pinning bit shares its metadata byte with other fields (the pinning bits of
+        // neighbouring objects, or other bits of the header byte).  A compare-exchange on a field
+        // narrower than a byte fails when *any* bit of that byte changes between its load and its
+        // exchange, so a single attempt can fail although the object is still unpinned.  Retry
+        // until we either pinned the object or saw it pinned by someone else.
+        loop {
+            if self.load_atomic::<VM, u8>(object, None, Ordering::SeqCst) == 1 {
+                return false;
+            }
+            let res = self.compare_exchange_metadata::<VM, u8>(
+                object,
+                0,
+                1,
+                None,
+                Ordering::SeqCst,
+                Ordering::SeqCst,
+            );
+            if res.is_ok() {
+                return true;
+            }
+        }
     }
 
     /// Unpin an object by clearing the pinning bit to 0.
     /// Return true if the object is unpinned in this operation.
     pub fn unpin_object<VM: VMBinding>(&self, object: ObjectReference) -> bool {
-        let res = self.compare_exchange_metadata::<VM, u8>(
-            object,
-            1,
-            0,
-            None,
-            Ordering::SeqCst,
-            Ordering::SeqCst,
-        );
-
-        res.is_ok()
+        // See `pin_object`: retry if the compare-exchange failed because of another field in the
+        // same metadata byte.
+        loop {
+            if self.load_atomic::<VM, u8>(object, None, Ordering::SeqCst) == 0 {
+                return false;
+            }
+            let res = self.compare_exchange_metadata::<VM, u8>(
+                object,
+                1,
+                0,
+                None,
+                Ordering::SeqCst,
+                Ordering::SeqCst,
+            );
+            if res.is_ok() {
+                return true;
+            }
+        }
     }
 
     /// Check if an object is pinned.
